@@ -5,7 +5,7 @@ from harness import core, tlc, writefx
 
 RULE = ("spec->code: every history {build|read ok|read with wrong STOP} ; {edit index|other curve|header}* ; write(opts)^k that "
         "the WriteAlgo model admits within MaxOps (all paths of its state graph, TLC) x index shapes {increasing, decreasing, "
-        "single sample, irregular} is executed on real LASFile objects with a full snapshot before and after every write(); "
+        "single sample, irregular; and a sample of the histories on 255..2048-row indexes} is executed on real LASFile objects with a full snapshot before and after every write(); "
         "traces validated by Trace_Write.  Distinct by full history (origin, shape, edits, option sets).")
 
 
@@ -37,6 +37,17 @@ def run(ctx):
         meta.append({"history": h2})
         ctx.evaluations += 1
         ctx.case(h2)
+    # the same histories on tall indexes (row counts around 256 / 512 / 1000 / 2000 / 2048)
+    inc = [h for h in maximal if h[0].get("shape") == "inc"]
+    for n in writefx.TALL:
+        for h in rng.sample(inc, min(len(inc), 40 if thorough else 8)):
+            h2 = [dict(e) for e in h]
+            h2[0]["shape"] = "tall%d" % n
+            h2.append(dict(h2[-1]))
+            traces.append(writefx.run_history(h2, rng))
+            meta.append({"history": h2})
+            ctx.evaluations += 1
+            ctx.case(h2)
     if thorough:
         from harness import suitetrace
         doc = suitetrace.record()
